@@ -85,7 +85,7 @@ def run(v, tier):
     try:
         p = os.path.join(d, "t.ndjson")
         open(p, "w").write(vf.ndjson([{k: o[k] for k in ("id", "k", "base", "new", "jb", "ja", "rb", "ra", "cls", "same")} for o in obs]))
-        viols, _, _ = vf.monitor_trace("ResumeMonitor", "ResumeMonitor.cfg", p)
+        viols, _, _ = vf.monitor_trace("ResumeMonitor", "ResumeMonitor.cfg", p, independent=True)
     finally:
         vf.rm(d)
     per = {}
